@@ -504,6 +504,33 @@ pub fn directed(all: bool) -> Vec<Trace> {
             v.push(t);
         }
     }
+    // restoration on the error path, second way in: the up-front reload succeeds and the failure happens INSIDE a probe (the
+    // lazily read Braille/<code>/unicode-full.yaml is broken and the expression has a character found only there)
+    for code in ["Nemeth", "UEB", "CMU"] {
+        for style in ["Off", "All", "FirstChar"] {
+            for kind in [FaultKind::Empty, FaultKind::WrongTopType] {
+                let mut t = Trace::new("C20", "C20");
+                t.origin = format!("directed query-fails-inside-probe {} {} {}", code, style, crate::faults::kind_name(&kind));
+                let mut s = vec![
+                    Step::Call(Op::SetRulesDir(MOUNT_A.into())),
+                    Step::Env(EnvEvent::Fault { path: format!("{}/Braille/{}/unicode-full.yaml", MOUNT_A, code), kind: kind.clone() }),
+                    Step::Call(Op::SetPref("BrailleCode".into(), code.to_string())),
+                    Step::Call(Op::SetPref("BrailleNavHighlight".into(), style.to_string())),
+                    Step::Call(Op::SetMathml(ExprRef::Pool(pools::EXPR_NEEDS_FULL_UNICODE))),
+                ];
+                for k in 0..4 {
+                    s.push(Step::Call(Op::NodeFromPos(PosRef::Abs(k))));
+                }
+                s.push(Step::Call(Op::BraillePos));
+                s.push(Step::Call(Op::Braille(IdRef::Nth(2))));
+                s.push(Step::Call(Op::SetMathml(ExprRef::Pool(2))));
+                s.push(Step::Call(Op::Braille(IdRef::Nth(1))));
+                s.push(Step::Call(Op::NodeFromPos(PosRef::Abs(1))));
+                t.sessions = vec![s];
+                v.push(t);
+            }
+        }
+    }
     // delayed effects: a highlight style (or another braille preference) set through the API, queries of every kind, then
     // the preference files get a newer time stamp (nothing in them changes) and are re-read by the next call; what the
     // session holds and says afterwards must be what the same history WITHOUT the queries leaves (run-level oracle in
